@@ -73,11 +73,30 @@ def mk (e : WEnv) (sensitive : List (List Char)) (salt : List Char) (reserved : 
     re := .grp 1 (altOf (sorted.map (literalRe e))),
     conflicting := dedup (res.filter (fun w => ws.any (fun s => isSub s w))) }
 
-def hexOfBytes (b : ByteArray) : List Char := (Md5.hex b).toList
+def hexNib (n : Nat) : Char := if n < 10 then Char.ofNat (48 + n) else Char.ofNat (87 + n)
+
+/-- `hexdigest()`: two lower-case hex digits per byte -/
+def hexOfBytes (b : ByteArray) : List Char :=
+  (b.toList.map (fun x => [hexNib (x.toNat / 16 % 16), hexNib (x.toNat % 16)])).flatten
 
 /-- `md5((salt + word).encode()).hexdigest()[:_ANON_SENSITIVE_WORD_LEN]` -/
 def replacement (salt matched : List Char) : List Char :=
   (hexOfBytes (Md5.digest (String.ofList (salt ++ matched)).toUTF8)).take Generated.wordLen
+
+/-- one white-space token: kept when it is a conflicting reserved word, else every match replaced -/
+def anonToken (e : WEnv) (t : T) (w : List Char) : Res (List Char) :=
+  if t.conflicting.contains (lowerStr e w) then .ok w
+  else sub t.re (fun mt => replacement t.salt mt.text) w
+
+def mapRes {α β} (f : α → Res β) : List α → Res (List β)
+  | [] => .ok []
+  | a :: as => match f a with
+    | .ok b => (match mapRes f as with
+      | .ok bs => .ok (b :: bs)
+      | .oof => .oof
+      | .none => .none)
+    | .oof => .oof
+    | .none => .none
 
 def anonymize (e : WEnv) (t : T) (line : List Char) : Res (List Char) :=
   match search t.re line with
@@ -86,15 +105,7 @@ def anonymize (e : WEnv) (t : T) (line : List Char) : Res (List Char) :=
   | .ok none => .ok line
   | .ok (some _) =>
     let (leading, words, trailing) := Secrets.splitLine e.isSpace line
-    let rec go : List (List Char) → List (List Char) → Res (List (List Char))
-      | [], acc => .ok acc.reverse
-      | w :: ws, acc =>
-        if t.conflicting.contains (lowerStr e w) then go ws (w :: acc)
-        else match sub t.re (fun mt => replacement t.salt mt.text) w with
-          | .ok w' => go ws (w' :: acc)
-          | .oof => .oof
-          | .none => .none
-    match go words [] with
+    match mapRes (anonToken e t) words with
     | .ok ws => .ok (leading ++ Secrets.joinSp ws ++ trailing)
     | .oof => .oof
     | .none => .none
